@@ -479,8 +479,13 @@ func randomCase(c *core.Ctx, r *rand.Rand, i int) {
 	default:
 		switch r.Intn(5) {
 		case 4:
-			c.Branch("stream/shard-fixed-offset-zone")
-			zoneShardCase(c, r)
+			if r.Intn(3) == 0 {
+				c.Branch("stream/shard-daylight-saving-zone")
+				dstShardCase(c, r)
+			} else {
+				c.Branch("stream/shard-fixed-offset-zone")
+				zoneShardCase(c, r)
+			}
 		case 0:
 			c.Branch("stream/shard-concurrent-writers")
 			gocCase(c, r)
